@@ -5,6 +5,7 @@ from spverif.core.util import attempt, exc_sig, pool_uint, rand_uint
 from spverif.ref import cfdp as R
 from . import _cfdp as C
 
+SCRIBBLE = True
 ID = "C05"
 LEVEL = "exploration"
 SHARDS = {"quick": 1, "thorough": 8}
@@ -250,6 +251,8 @@ def selftest(ctx):
 
 
 def run(ctx):
+    from spverif.san import scribble
+    scribble.install()
     r = ctx.rng
     i = 0
     _run_reuse(ctx)
@@ -318,6 +321,7 @@ def _run_reuse(ctx):
 
 
 def conclude(ctx):
+    ctx.require(ctx.extra.get("hostile_caller_scribbled_pack_results", 0) > 0, "hostile-caller sanitizer scribbled no pack() result")
     ctx.require(len(ctx.tables.get("configurations_pack", {})) == 2048, "not all 2048 header configurations were observed")
     for k in ("ok", "version", "width", "short"):
         ctx.require(ctx.tables.get("decode_outcome", {}).get(k, 0) > 0, f"decode outcome class {k} empty")
